@@ -35,6 +35,10 @@ FACTS = {
         ('fold_right_loop', 'elementpath/xpath30/_xpath30_functions.py', 'select__fold_right', 'order', 'for item in reversed(sequence): ;; result = func(item, result, context=context)'),
         ('for_each_pair_zip', 'elementpath/xpath30/_xpath30_functions.py', 'select__for_each_pair', 'has', 'zip(self[0].select(context), self[1].select(context))'),
         ('filter_loop', 'elementpath/xpath30/_xpath30_functions.py', 'select__filter', 'order', 'cond = func(item, context=context) ;; if cond: ;; yield item'),
+        ('partial_fixed_arguments_evaluated', 'elementpath/xpath_tokens/functions.py', 'XPathFunction.bind_partial_function', 'has', 'ValueToken(self.parser, value=tk.evaluate(context))'),
+        ('partial_is_a_copy_with_own_items', 'elementpath/xpath_tokens/functions.py', 'XPathFunction.bind_partial_function', 'order', 'func = copy(self) ;; func._items = [ ;; func.to_partial_function() ;; return func'),
+        ('partial_fills_placeholders', 'elementpath/xpath_tokens/functions.py', 'XPathFunction.bind_partial_function', 'order', "if self.label in ('partial function', 'inline partial function') and tokens is not self._items: ;; args = iter(tokens)"),
+        ('dynamic_partial_binds', 'elementpath/xpath30/_xpath30_operators.py', 'evaluate__parenthesized_expression', 'has', 'return func.bind_partial_function(tokens, context)'),
         ('sort_is_sorted_with_key', 'elementpath/xpath31/_xpath31_functions.py', 'evaluate__sort', 'has', 'sorted(self[0].select(context), key=key_function)'),
     ],
     'C12': [
